@@ -155,6 +155,17 @@ def run_cfg(ctx, p, cfg):
         for fn_, adt in (("config::raw::logger_additive_default", "config::raw::Logger"), ("config::raw::root_level_default", "config::raw::Root")):
             users = [c.fn.path for c in p.all_calls(fn_)]
             r.require(any(("for %s>" % adt) in u and "visit_map" in u for u in users), "default-used-by-derive:%s" % fn_.rsplit("::", 1)[-1], detail="callers: %s" % [u[-60:] for u in users])
+        # a document without a `root` section gets Root::default(): it has to agree with a `root` section that omits the level
+        df = p.fn("<config::raw::Root as core::default::Default>::default")
+        de = deep_strip(df.local_expr(0))
+        lv = deep_strip(dict(de[3]).get("level", ("other",))) if de[0] == "agg" else ("other",)
+        _, want = ret_of("config::raw::root_level_default")
+        same = (lv[0] == "call" and lv[1] == "config::raw::root_level_default") or lv == want or (lv[0] == "agg" and want[0] == "agg" and lv[1:3] == want[1:3]) \
+            or (lv[0] == "call" and lv[1] in p.fns and deep_strip(p.fn(lv[1]).local_expr(0)) == want)
+        r.require(same, "absent-root-equals-level-less-root", fn=df, detail="Root::default().level = %s, serde default for a missing level = %s" % (show(lv), show(want)),
+                  fail_detail="a configuration file without a `root` section gets level %s while one whose `root` section omits the level gets %s: the two defaults disagree" % (show(lv), show(want)))
+        ap = deep_strip(dict(de[3]).get("appenders", ("other",))) if de[0] == "agg" else ("other",)
+        r.require(ap[0] == "call" and (ap[1].endswith("Vec::<T>::new") or ap[1].endswith("Default::default") or "vec" in ap[1].lower()), "absent-root-has-no-appenders", fn=df, detail="Root::default().appenders = %s" % show(ap))
         if "onstartup_trigger" in feats:
             f, e = ret_of("append::rolling_file::policy::compound::trigger::onstartup::default_min_size")
             r.require(e == ("const", "int", 1), "min_size-default-1", fn=f, detail="default_min_size() = %s" % show(e))
